@@ -79,7 +79,20 @@ def _make_unique(em, rd, call, args, obj):
     return None
 
 
+def _swap(em, rd, call, args, obj):
+    # std::swap(a, b) on two lvalues of one scalar/pointer type: exchange through a temporary (M-swap)
+    if obj is not None or len(args) != 2:
+        return None
+    ta, tb = em.ctype_of(qt(args[0])), em.ctype_of(qt(args[1]))
+    if ta != tb or ta[0] not in ('c', 'p') or (ta[0] == 'c' and ta[1].startswith('struct ')):
+        return None
+    em.lowerings['M-swap(std::swap of scalars)'] += 1
+    a, b = em.E(args[0]), em.E(args[1])
+    return '({ %s = %s; %s = %s; %s = __swap_t; (void)0; })' % (em.cdecl(ta, '__swap_t'), a, a, b, b)
+
+
 MODELS = {
+    'swap': _swap,
     'make_unique': _make_unique,
     'uncaught_exceptions': _uncaught,
     'uncaught_exception': _uncaught,
